@@ -9,7 +9,7 @@ EXTENDS SchedXferCore
 \* Model-checking spec: the core driven by an environment (controller, faults, caller).
 
 CONSTANTS Zones,          \* subset of 1..3
-          FixLock, FixAck, \* see SchedXferCore
+          FixLock, FixAck, FixStale, \* see SchedXferCore
           ZlibDetects,    \* TRUE (assumption); FALSE shows why it is needed
           MaxMain,        \* main-phase transfers
           MaxFaults,      \* lost / rlost / cancel / timeout
@@ -18,7 +18,7 @@ CONSTANTS Zones,          \* subset of 1..3
           HeardStale,     \* see HeardFrag
           HeardAcks       \* whether another device's write acknowledgements are overheard
 
-Fix == [lock |-> FixLock, ack |-> FixAck]
+Fix == [lock |-> FixLock, ack |-> FixAck, stale |-> FixStale]
 
 VARIABLES G,              \* gateway side (core)
           late,           \* replies on their way to a transfer that was cancelled meanwhile
@@ -74,7 +74,7 @@ StartXfer(z, op, force) ==
     /\ phase = "main" /\ cnt.started < MaxMain /\ ~Active(G, z)
     /\ op = "set" => AllowSet
     /\ LET tid == cnt.started + 1
-           G2  == IF op = "get" THEN StartGet(G, z, force, tid) ELSE StartSet(G, z, cver[z] + 1, tid)
+           G2  == IF op = "get" THEN StartGet(G, z, force, tid, Fix) ELSE StartSet(G, z, cver[z] + 1, tid, Fix)
        IN  /\ G' = G2
            /\ cnt' = [cnt EXCEPT !.started = tid]
            /\ h' = Append(h, Ev("start", tid, z, IF op = "get" THEN 0 ELSE 1, IF force THEN 1 ELSE 0))
@@ -106,7 +106,7 @@ Exch(z, outcome) ==
     /\ LET r  == Z(G, z)
            m  == ReplyOf(z)
            G2 == CASE outcome # "ok" -> Fail(G, z, "err", Fix)
-                   [] m.kind = "ver"  -> OnVer(G, z, m.c)
+                   [] m.kind = "ver"  -> OnVer(G, z, m.c, Fix)
                    [] m.kind = "frag" -> OnFrag(G, z, m.c, m.k, m.n, ZlibDetects, Fix)
                    [] m.kind = "ack"  -> OnPutAck(G, z)
        IN  /\ G' = G2 /\ NoteEnd(G2)
@@ -145,7 +145,7 @@ Late(m) ==
 \* the 5 ms sleep of _obtain_lock ends and the lock is free
 Spin(z) ==
     /\ Z(G, z).pc = "w_lock" /\ G.lock \in {NoZone, z}
-    /\ G' = TryLock(G, z)
+    /\ G' = TryLock(G, z, Fix)
     /\ UNCHANGED <<late, ctr, cver, phase, cnt, ct, lastEnded, fuDone, lockAtMainEnd, h>>
 
 \* the lock is held by a zone with no transfer in progress: the waiter's time-out expires
@@ -211,7 +211,7 @@ ToFollowUp ==
 StartFu(z) ==
     /\ phase = "fu" /\ ~AnyActive /\ z \notin fuDone
     /\ LET tid == 100 + z
-           G2  == StartGet(G, z, TRUE, tid)
+           G2  == StartGet(G, z, TRUE, tid, Fix)
        IN  /\ G' = G2 /\ lastEnded' = IF Active(G2, z) THEN lastEnded ELSE tid
     /\ fuDone' = fuDone \cup {z}
     /\ ct' = Called(ct, z)
